@@ -306,7 +306,9 @@ class C02(Check):
             'activation, each with seeded heap perturbation and twice per worker; also the programs of the lock/stream/resource/pipe/'
             'ticker/first() checks, abandoned-iterator shapes and short-lived Resources of equal kinds; '
             'all event logs must be identical; plus the FIFO invariant on the activation/schedule streams. non-trivial = a time '
-            'step with >=3 activations of distinct activities in a program using >=3 primitive families; distinct by sha1.')
+            'step with >=3 activations of distinct activities in a program using >=3 primitive families; distinct by sha1. Also usim.py programs (processes, events, conditions, callbacks, '
+            'same-step collisions included) in the differential; a second FIFO oracle over one merged stream of schedule calls, '
+            'revocations and activations (a wake-up revoked before delivery stays dead, the oldest valid entry of a date runs next).')
     quick_boost = False
     budgets = {'quick': dict(examples=900, procs=2), 'thorough': dict(examples=40000, procs=4)}
     level_text = ('Differential testing across configurations: identical normalised event logs (which activity does what, at which '
